@@ -194,7 +194,7 @@ def main():
         if picked >= n_want:
             break
         picked += 1
-        if key in done:
+        if key in done and not (os.environ.get("AUTOMUT_RETRY") and done[key].get("verdict") in os.environ["AUTOMUT_RETRY"].split(",")):
             continue
         wt = f"/var/tmp/automut_{os.getpid()}"
         sh(f"git -C /repo worktree remove --force {wt}; git -C /repo worktree prune")
